@@ -1205,6 +1205,19 @@ def c12_families(tier, seed, ids=None, ck=None):
     if tier == "quick":
         ch = ch[seed % 5::5]
     out.append(("chains of one operator with literal operands x contexts", gens.context_sessions(ch, first_id=1950000, ctx_filter={"top", "fntail", "arg", "assign", "elem", "ifcond", "forbody", "yield", "opl"}), ("value",)))
+    # unary operators applied directly to a call (the callee computes with nested operators and leaves its own intermediate values
+    # behind), as left operand, right operand, alone and nested -- the value is that of the operator applied to a variable holding the result
+    F3, Fx = call("f", I(3)), call("f", N("x"))
+    LN = call("id", St("abc"))
+    uc = []
+    for c_ in (F3, Fx):
+        uc += [bin_("+", un("-", c_), I(5)), bin_("-", bin_("*", un("-", c_), I(2)), I(1)), un("-", c_), bin_("+", I(5), un("-", c_)), bin_("<", un("-", c_), I(0)), bin_("+", un("-", c_), c_),
+               bin_("+", un("~", c_), I(1)), bin_("&", un("!", bin_(">", c_, I(5))), Bo(True)), bin_("*", un("-", un("-", c_)), I(3)), bin_("+", un("#", call("toa", c_)), I(1)),
+               bin_("+", un("-", bin_("*", c_, I(2))), c_), bin_("-", un("-", c_), un("-", c_))]
+    uc += [bin_("+", un("#", LN), I(1)), bin_("+", un("#", bin_("+", LN, LN)), un("#", LN)), bin_("+", un("-", un("#", LN)), I(1))]
+    if tier == "quick":
+        uc = uc[seed % 2::2] + uc[:2]
+    out.append(("unary operators applied to calls x contexts", gens.context_sessions(uc, first_id=1970000, ctx_filter={"top", "fntail", "fnmid", "arg", "assign", "elem", "ifcond", "whilecond", "forbody", "yield", "opl", "write"}), ("value",)))
     ids = Ids(2000000)
     # rewrite pairs of the property text
     rw = []
